@@ -416,7 +416,7 @@ def describe():
                  "unsupported binding or handler at a seeded object, regenerate with the faulty source first/middle/last "
                  "(optionally under EINTR / short reads), un-plant, regenerate}, final regeneration and identical re-run. "
                  "distinct_nontrivial counts distinct tuples (plant kind, how many outputs pre-existed, argument position, "
-                 "-O set, --no-dynamic-binding, benign faults) over faulty runs."),
+                 "-O set, --no-dynamic-binding, benign faults) over faulty runs. Accepted edits are also translated under ENOSPC/EIO/EDQUOT/EFBIG and short writes of the outputs (exit 0 only with the fault-free content) and against a clone that never held outputs; constant QLayout.* values unique in the document must be found in the .ui (sampled instance of the input clause)."),
         "fingerprint": "plant kind | pre-existing outputs | argv position | -O | no-dyn | benign",
         "components": {
             "real": ["qmluic generate-ui release binary built from /repo working tree", "contrib/metatypes/*.json", "kernel file system (tmpfs)"],
